@@ -68,11 +68,12 @@ def fmtDelivered (l : List (Nat × Target × Bool)) : String :=
 def parseTarget (s : String) : Option Target :=
   if s == "main" then some .main else s.toNat?.map .temp
 
-/-! ### whole-client ops: `cl reset` | `cl <sub|err|shut> <acct> <refuse> <beh,..|-> <a.b/c.d|->` -/
+/-! ### whole-client ops: `cl reset` | `cl <sub|err|shut> <acct> <refuse> <beh,..|->` -/
 
 def parseBeh (s : String) : Option Beh :=
   if s == "ok" then some .ok else if s == "errBC" then some .errBC else if s == "shutBC" then some .shutBC
-  else if s == "errAC" then some .errAC else if s == "shutAC" then some .shutAC else none
+  else if s == "errAC" then some .errAC else if s == "shutAC" then some .shutAC else if s == "errMid" then some .errMid
+  else if s == "reject" then some .reject else none
 
 def parseList {α} (sep : String) (f : String → Option α) (s : String) : Option (List α) :=
   if s == "-" then some [] else (s.splitOn sep).mapM f
@@ -84,11 +85,11 @@ def fmtErrs (l : List ErrClass) : String :=
   if l.isEmpty then "-" else joinWith "," (l.map fun
     | .none_ => "nil" | .serverErrored => "ErrServerErrored" | .other => "other")
 
-def clStep (d : DrvSt) (op : Op) (refuse : Nat) (beh : List Beh) (orders : List (List Nat)) : DrvSt × String :=
-  let c0 := d.cl.script refuse beh orders
-  let (c, ret) := c0.step op
+def clStep (d : DrvSt) (op : Op) (refuse : Nat) (beh : List Beh) : DrvSt × String :=
+  let c0 := d.cl.script refuse beh
+  let (c, ret) := c0.step variantOfSource id op
   let out :=
-    if c.badOrder then "bad-order" else if c.chaos then "chaos" else
+    if c.chaos then "chaos" else
     let r := match ret with | .none_ => "-" | .ok => "ok" | .err => "err"
     s!"ret={r} main={fmtErrs c.mainErrs} handler={fmtErrs c.handlerRes} new={c.streams.length - c0.streams.length} " ++
     s!"attempts={c.attempts - c0.attempts} map={fmtNats c.accts} cur={fmtNats c.cur.success} " ++
@@ -125,12 +126,12 @@ def drvStep (d : DrvSt) (args : List String) : DrvSt × String :=
       (d, s!"ok={bit c.ok} waits={fmtInts c.waits} backoffs={fmtInts c.backoffs}")
     | _, _, _, _, _ => (d, "bad-op")
   | ["cl", "reset"] => ({ d with cl := {} }, "ok")
-  | ["cl", kind, a, k, b, o] =>
+  | ["cl", kind, a, k, b] =>
     let op : Option Op := if kind == "sub" then a.toNat?.map .sub else if kind == "err" then some .errIdle
       else if kind == "shut" then some .shutIdle else none
-    match op, k.toNat?, parseList "," parseBeh b, parseList "/" (fun t => if t == "e" then some [] else parseList "." String.toNat? t) o with
-    | some op, some k, some b, some o => clStep d op k b o
-    | _, _, _, _ => (d, "bad-op")
+    match op, k.toNat?, parseList "," parseBeh b with
+    | some op, some k, some b => clStep d op k b
+    | _, _, _ => (d, "bad-op")
   | ["sw", "reset"] => ({ d with sw := {}, waiter := none }, "ok")
   | ["sw", "send", e] =>
     match e.toNat? with
